@@ -574,6 +574,7 @@ class CGen(qf.QGen):
         kw.setdefault("max_depth", 2)
         kw.setdefault("hostile", 0.1)
         super().__init__(rng, **kw)
+        self.p_csub = 0.15       # sub-queries inside HAVING / GROUP BY / ORDER BY (QGen), parenthesised since c8c50bc / 2346aee
         self.c10_corr = 0.5      # (QGen's own p_corr stays 0: correlation is placed by correlate() below)
         self.p_bad_corr = 0.25     # share of correlated references placed outside WHERE (known defect)
         self.p_pretag = 0.08
@@ -695,8 +696,10 @@ class CGen(qf.QGen):
                 v = ["t", self.value()]
             elif rr < 0.8:
                 v = ["t", ["arith", "add", fld(), ["vali", 1, None], None]]
-            else:   # (a sub-query as SET value is printed without parentheses: not this property's business, not generated)
+            elif rr < 0.9:
                 v = ["t", ["func", "COALESCE", [fld(), ["vali", 0, None]], None]]
+            else:   # a sub-query as SET value (parenthesised since 5249523), possibly correlated to the target by correlate()
+                v = ["sub", self.select(self.cls(cls), 1, small=True, nsel=1)]
             sets.append([c, v])
         q["sets"] = sets
         if self.r.random() < 0.75:
